@@ -28,7 +28,9 @@ RULE = ('(A) copy-on-derive: a pool of phase descriptors / collections grown by 
         '(C) two Tests that share phase objects executed concurrently (gated so that their phases interleave, and under the '
         'deterministic scheduler with drawn plans): each run\'s record equals its solo record and neither sees the other\'s '
         'measurements, diagnoses, attachments, state dict, nor (both declared with the same nested metadata object) the other\'s '
-        'record metadata.  Non-trivial = a derive followed by a mutation or an execute of the '
+        'record metadata.  (D) two Tests built from the same phase - hence the same plug CLASS, as on a multi-slot station - executed '
+        'at the same time under the scheduler, constructor taking virtual time, every single preemption over all yield points: both '
+        'PASS, one instance each, constructed and torn down once.  Non-trivial = a derive followed by a mutation or an execute of the '
         'derived object; a second run; a concurrent pair; distinct by canonical case.')
 ASSUMPTIONS = ['Copy-on-derive is checked for depth-1 modifications: the same Measurement / PhasePlug declaration object reachable from several phases is how measures()/plug() work and is not "modifying the derived phase".',
                'Framework-level openhtf.* log lines are shared by design and excluded from the concurrent comparison.']
@@ -429,9 +431,89 @@ def check_concurrent(case):
   return r
 
 
+def check_shared_plug(case):
+  """case = {'shared_plug': n_tests, 'plan': {yield index: thread choice}}.
+
+  n Tests built from the same phase (hence the same plug CLASS - the station pattern) are executed at the same time under
+  the deterministic scheduler; the plug constructor and PlugManager are preemptible line by line.  Oracle: every run is
+  PASS with its own instance, constructed and torn down once.
+  """
+  from vf import vmode  # pylint: disable=g-import-not-at-top
+  from vf import vsched as V  # pylint: disable=g-import-not-at-top
+  r = CaseResult()
+  vmode.setup()
+  import openhtf.plugs as plugs_  # pylint: disable=g-import-not-at-top
+  V.monitor_lines(V.code_objects_of(plugs_.PlugManager) + vmode.executor_code_objects())
+  plan_ = {int(k): v for k, v in (case.get('plan') or {}).items()}
+  n = case['shared_plug']
+
+  def fn(s):
+    htf = ohtf.reset_case(cancel_timeout_s=0.05, plug_teardown_timeout_s=0.05)
+    vmode.quiet_logging()
+    log = []
+
+    class Shared(htf.plugs.BasePlug):
+      def __init__(self):
+        log.append(('ctor-begin', s.me().idx))
+        s.sleep(0.05)        # opening the instrument takes a while
+        log.append(('ctor-end', s.me().idx))
+
+      def tearDown(self):
+        log.append(('td', id(self)))
+
+    def body(test, dev):
+      log.append(('body', test.test_record.dut_id, id(dev)))
+
+    body.__name__ = 'uses_shared'
+    phase = htf.plug(dev=Shared)(body)
+    tests = [htf.Test(phase) for _ in range(n)]
+    out = [None] * n
+
+    def runner(k):
+      got = []
+      tests[k].add_output_callbacks(got.append)
+      try:
+        tests[k].execute(test_start=lambda: 'dut%d' % k)
+        out[k] = (got[0].outcome.name, [d.code for d in got[0].outcome_details])
+      except BaseException as e:  # pylint: disable=broad-except
+        out[k] = ('raised', repr(e)[:200])
+
+    ths = [real_threading.Thread(target=runner, args=(k,), name='slot%d' % k, daemon=True) for k in range(n)]
+    for t in ths:
+      t.start()
+    for t in ths:
+      t.join()
+    return out, log
+
+  s = V.Scheduler(plan=plan_, time_limit=1e5, max_steps=300000)
+  res, exc = s.run(lambda: fn(s), watchdog_s=20.0)
+  tag = 'shared plug class, %d tests, plan=%r' % (n, case.get('plan'))
+  r.nontrivial = bool(s.effective_preemptions)
+  r.classes = ['shared-plug-class', 'tests:%d' % n, 'preemptions:%d' % min(len(s.effective_preemptions), 3)]
+  if s.failure is not None:
+    if s.failure[0] in ('deadlock', 'steplimit'):
+      r.bad('C11/shared-plug/hang', '%s: %s' % (tag, s.failure[1][:400]))
+      return r, s
+    raise RuntimeError('scheduler failure %r' % (s.failure,))
+  if exc is not None:
+    raise exc
+  out, log = res
+  bad = [(k, o) for k, o in enumerate(out) if o is None or o[0] != 'PASS']
+  if bad:
+    r.bad('C11/shared-plug/run-disturbed-by-the-other/%s' % (bad[0][1][1][0] if bad[0][1] and bad[0][1][1] and bad[0][1][0] != 'raised' else 'other'),
+          '%s: outcomes %r' % (tag, out))
+  else:
+    devs = [e[2] for e in log if e[0] == 'body']
+    if len(set(devs)) != n or len([e for e in log if e[0] == 'ctor-end']) != n or sorted(e[1] for e in log if e[0] == 'td') != sorted(devs):
+      r.bad('C11/shared-plug/instances', '%s: log %r' % (tag, log))
+  return r, s
+
+
 def plan(tier, seed):
   q = tier == 'quick'
   jobs = []
+  for nsh in range(4):
+    jobs.append({'kind': 'shared-plug', 'name': 'shared-plug%d' % nsh, 'shard': nsh, 'nshards': 4, 'tests': 2, 'stride': 2 if q else 1, 'offset': seed % 2 if q else 0})
   for i in range(8):
     jobs.append({'kind': 'derive', 'name': 'derive%d' % i, 'hseed': seed * 1000 + i, 'n': 600 if q else 6000})
   for i in range(4):
@@ -446,6 +528,25 @@ def run_job(job, acct):
   if job['kind'] == '_regress':
     from vf import runner  # pylint: disable=g-import-not-at-top
     runner.run_regress(sys.modules[__name__], job, acct)
+  elif job['kind'] == 'shared-plug':
+    base = {'shared_plug': job['tests'], 'plan': {}}
+    r0, s0 = check_shared_plug(base)
+    acct.case(base, r0.nontrivial, r0.classes)
+    for sig, detail in r0.violations:
+      (acct.known if sig in known else acct.violation)(sig, base, detail)
+    i = 0
+    for k in range(job['offset'], s0.k + 2, job['stride']):
+      for c in range(job['tests'] + 1):
+        i += 1
+        if i % job['nshards'] != job['shard']:
+          continue
+        case = dict(base, plan={str(k): c})
+        r, _ = check_shared_plug(case)
+        acct.case(case, r.nontrivial, r.classes)
+        for sig, detail in r.violations:
+          (acct.known if sig in known else acct.violation)(sig, case, detail)
+    if job['shard'] == 0 and job['stride'] == 1:
+      acct.exhaustive_parts.append('two tests sharing a plug class: every single preemption over %d yield points' % (s0.k + 2))
   elif job['kind'] == 'derive':
     hyp.search(acct, derive_cases(), check_derive, seed=job['hseed'], max_examples=job['n'], known=known)
   elif job['kind'] == 'runs':
@@ -457,6 +558,8 @@ def run_job(job, acct):
 
 
 def replay(case):
+  if 'shared_plug' in case:
+    return check_shared_plug(case)[0].violations
   if 'ops' in case:
     return check_derive(case).violations
   if 'runs' in case:
